@@ -357,7 +357,7 @@ func (c *c04Checker) Finish(x *Exec) *Violation { return nil }
 
 func GenC15(seed uint64) *Scenario {
 	r := NewRng(seed, "gen", "C15")
-	b := genBase(r, GenOpts{WantIndex: true, WantStores: r.Range(0, 2), MinMods: 3, MaxMods: 7, FilterPm: 750}, 0)
+	b := genBase(r, GenOpts{WantIndex: true, MaxIndex: r.Range(1, 2), WantStores: r.Range(0, 2), MinMods: 3, MaxMods: 7, FilterPm: 750}, 0)
 	s := &Scenario{Prop: "C15", Seed: seed, Family: "index_present_absent", Pkg: b.pkg, Head: b.head, ConfDepth: uint64(r.Range(1, 4))}
 	genPolicy(r, s)
 	nh := r.Range(1, 2)
